@@ -125,8 +125,14 @@ def addNode (st : ReSt) (id : Nat) (t : RE) : ReSt × String :=
       | 4 => decide (t = .epsilon)
       | 5 => decide (t = sigmaPlus)
       | _ => true
+    -- flat table (C19Mgr `FlatTbl`): a stored union/intersection has pairwise distinct operands,
+    -- none of which is itself a union/intersection of the same kind
+    let okFlat := match t with
+      | .union l => l.eraseDups.length == l.length && l.all (fun x => match x with | .union _ => false | _ => true)
+      | .inter l => l.eraseDups.length == l.length && l.all (fun x => match x with | .inter _ => false | _ => true)
+      | _ => true
     let st' := { st with terms := st.terms.push t, ids := st.ids.insert t id }
-    (st', if okPair && okInit then "ok" else "BAD-PAIR")
+    (st', if !(okPair && okInit) then "BAD-PAIR" else if !okFlat then "BAD-FLAT" else "ok")
 
 /-- first test string on which two membership predicates differ -/
 def firstDiff (st : ReSt) (f g : List Nat → Bool) : Option (List Nat) :=
@@ -222,9 +228,9 @@ def handle (st : ReSt) (op : String) (args : List String) : ReSt × Option Reply
   | "strings", [cs, n] =>
     match rNats cs, rNat n with
     | some cs, some n =>
-      -- all strings up to length n, plus powers c^k (k ≤ 9) of every test character and powers
+      -- all strings up to length n, plus powers c^k (k ≤ 7) of every test character and powers
       -- (c d)^k (k ≤ 4) of the first two: loop rewrites differ only on words with many factors
-      let powers := cs.flatMap (fun c => (List.range 10).map (fun k => List.replicate k c))
+      let powers := cs.flatMap (fun c => (List.range 8).map (fun k => List.replicate k c))
       let pairs := match cs with
         | c :: d :: _ => (List.range 5).map (fun k => (List.replicate k [c, d]).flatten)
         | _ => []
@@ -334,7 +340,9 @@ def handle (st : ReSt) (op : String) (args : List String) : ReSt × Option Reply
       withLang st (st.pId (charDerivative ord a c)) (fun w => refMatch a (c :: w))
   | "str_deriv", [a, s] => pure' do
       let a ← st.term a; let s ← rNats s
-      withLang st (st.pId (strDerivative ord a s)) (fun w => refMatch a (s ++ w))
+      -- the language check runs the exponential reference matcher on s ++ w: short prefixes only
+      if s.length ≤ 8 then withLang st (st.pId (strDerivative ord a s)) (fun w => refMatch a (s ++ w))
+      else ok (st.pId (strDerivative ord a s))
   | "str_in_re", [a, s] => pure' do
       let a ← st.term a; let s ← rNats s
       -- short strings: the independent reference matcher; long ones: the model's value, which
